@@ -174,17 +174,19 @@ static bool call_guard(const PDU& obj, const uint8_t* src, size_t n) {
 static void match_case(const vh::Json& sc, vh::Out& out, vh::Rng& rng) {
     const vh::Json& r = sc["r"]; const vh::Json& m = sc["m"];
     Table T(rng);
-    std::unique_ptr<PDU> req(build(r, T, rng, "plain", Bytes())); fill_dns(req.get(), false, rng);
+    // one concretisation in four carries IPv4 options / IPv6 extension headers (the same structure in request and reply)
+    const std::string nv = rng.below(4) == 0 ? "opts" : "plain";
+    std::unique_ptr<PDU> req(build(r, T, rng, nv, Bytes())); fill_dns(req.get(), false, rng);
     bool pre = rng.coin();      // the sender serialises a request before it waits for the answer; the matcher must not depend on it
     Bytes reqb; if (pre) reqb = req->serialize(); else { std::unique_ptr<PDU> c(req->clone()); reqb = c->serialize(); }
     Bytes quoted; const std::string net = r["net"].str();
     if (m["upper"].str() == "unreach") quoted = m["quote"].str() == "own" ? quote_of(reqb, net) : unrelated_quote(net, rng);
-    std::unique_ptr<PDU> rep(build(m, T, rng, "plain", quoted)); fill_dns(rep.get(), true, rng);
+    std::unique_ptr<PDU> rep(build(m, T, rng, nv, quoted)); fill_dns(rep.get(), true, rng);
     Bytes repb = rep->serialize();
     bool verdict = call_heap(*req, &repb[0], repb.size());
     out.begin("\"part\":\"match\",\"kind\":\"" + sc["kind"].str() + "\",\"field\":\"" + sc["field"].str() + "\",\"net\":\"" + net + "\",\"upper\":\"" + r["upper"].str() + "\"");
     vh::W w; w.O().kv("e", "match").kv("kind", sc["kind"].str()).kv("field", sc["field"].str()).kv("val", sc["val"].num())
-        .kraw("r", r.dump()).kraw("m", m.dump()).kbytes("req", reqb).kbytes("rep", repb).kv("pre", pre).kv("verdict", verdict).E();
+        .kraw("r", r.dump()).kraw("m", m.dump()).kbytes("req", reqb).kbytes("rep", repb).kv("netvar", nv).kv("pre", pre).kv("verdict", verdict).E();
     out.event(w); out.end();
 }
 
@@ -270,7 +272,7 @@ static void safe_case(const vh::Json& sc, vh::Out& out, const vh::Args& args) {
     else if (src == "random") buf = rnd(rng, 128);
     else if (src == "ones") buf.assign(128, 0xff);
     const std::string cls = label.substr(0, label.find_first_of("#:"));
-    out.begin("\"part\":\"safe\",\"obj\":\"" + label + "\",\"src\":\"" + src + "\",\"n\":" + std::to_string(n));
+    out.begin("\"part\":\"safe\",\"obj\":\"" + label + "\",\"src\":\"" + src + "\",\"len\":" + std::to_string(n));
     bool h = call_heap(*obj, &buf[0], n);
     // Loopback::matches_response dereferences the caller's pointer as uint32_t; an unaligned *start* would be reported by
     // UBSan, which is not what C14 is about -- the guard-page placement (aligned end) is skipped for that class only
